@@ -9,7 +9,7 @@
     [disable]) on a manager whose first configuration is [cfg] ([new], [Default], a [Host]'s field).
     [accept_loop checked sc t0 evs]: the accept loop of src/lib.rs with every counter and exit
     path it has, over the pre-host limiter / host limiter pair described by [sc]. *)
-From KV Require Import Bytes RustInt Limiter LimiterProofs.
+From KV Require Import Bytes RustInt Limiter LimiterProofs LimiterConc LimiterConcProofs.
 Open Scope N_scope.
 
 (** For every sequential history and every configuration (max_requests, check_every,
@@ -385,3 +385,96 @@ Example ex_events :
   = ([Served [Normal] false; Refused; Refused], ReturnedErr) /\
   spec_server_events sc 0 [Conn 1 0 [0]; Shutdown; Conn 2 0 [0]] = ([Served [Normal] false; Refused], ReturnedOk).
 Proof. vm_compute. repeat split; discriminate. Qed.
+
+(** ---- concurrent calls of register --------------------------------------------------------- *)
+(** [conc_log checked cfg nsh shard t0 progs sch]: the calls that have returned (thread, address,
+    verdict; newest first) after the schedule [sch] — a list of (thread, clock reading): that
+    thread makes its next access to the shared counters — of threads that make the calls of
+    [progs] (one list of addresses per thread) on one manager; Model/LimiterConc.v splits
+    [register] into its accesses (fetch_add / store on [iteration], the two halves of the window
+    start, the shard-by-shard [clear], the per-key atomic entry update).  [nsh]/[shard]: the
+    shards of the map, arbitrary.  [rets b log]: calls of [b] in [log]. *)
+
+(** Under EVERY interleaving, with any other traffic, a call of [b] is never answered more harshly
+    than the ladder on the number of [b]'s own calls that have returned so far (this one
+    included) — and no call panics. *)
+Theorem concurrent_others_never_hurt :
+  forall (checked : bool) (cfg : config) (nsh : nat) (shard : N -> nat) (t0 : N) (progs : list (list N))
+         (sch : list (nat * N)) (l2 : list ret_entry) (i : nat) (b : N) (d : outcome action) (l1 : list ret_entry),
+  fits (length sch) ->
+  conc_log checked cfg nsh shard t0 progs sch = l2 ++ (i, b, d) :: l1 ->
+  exists act, d = Ok act /\
+    action_code act <= action_code (ladder (max_requests cfg) (rets b ((i, b, d) :: l1))).
+Proof. exact conc_others_never_hurt. Qed.
+
+(** An address that makes at most [max_requests] calls in all — on whatever threads — is never
+    limited, whatever anybody else does concurrently. *)
+Theorem concurrent_own_traffic_never_limited :
+  forall (checked : bool) (cfg : config) (nsh : nat) (shard : N -> nat) (t0 : N) (progs : list (list N))
+         (sch : list (nat * N)) (i : nat) (b : N) (d : outcome action),
+  fits (length sch) -> count b (all_calls progs) <= max_requests cfg ->
+  In (i, b, d) (conc_log checked cfg nsh shard t0 progs sch) -> d = Ok Passed.
+Proof. exact conc_own_traffic. Qed.
+
+(** With every call counted ([check_every] <= 1) and no reset: under every interleaving the k-th
+    call of an address to return gets exactly [ladder max k]; when all threads are done that is
+    [ladder max 1 .. ladder max (its number of calls)] — independent of the schedule. *)
+Theorem concurrent_exact_ladder :
+  forall (checked : bool) (cfg : config) (nsh : nat) (shard : N -> nat) (t0 : N) (progs : list (list N))
+         (sch : list (nat * N)) (b : N),
+  fits (length sch) -> check_every cfg <= 1 -> reset_after cfg = None ->
+  verdicts_of b (conc_log checked cfg nsh shard t0 progs sch)
+  = map (@Ok action) (ladder_down (max_requests cfg) (N.to_nat (rets b (conc_log checked cfg nsh shard t0 progs sch)))) /\
+  (all_done (wrun checked cfg nsh shard (wstart t0 progs) sch) = true ->
+   verdicts_of b (conc_log checked cfg nsh shard t0 progs sch)
+   = map (@Ok action) (ladder_down (max_requests cfg) (N.to_nat (count b (all_calls progs))))).
+Proof.
+  intros. split; [apply conc_exact_ladder; assumption|intros; apply conc_exact_ladder_done; assumption].
+Qed.
+
+(** ... and the execution is linearisable: the verdicts, in the order in which the calls took
+    effect (each inside its call), are those of the sequential reference counter. *)
+Theorem concurrent_linearizable :
+  forall (checked : bool) (cfg : config) (nsh : nat) (shard : N -> nat) (t0 : N) (progs : list (list N))
+         (sch : list (nat * N)) (tm : ret_entry -> N),
+  fits (length sch) -> check_every cfg <= 1 -> reset_after cfg = None ->
+  map snd (rev (conc_log checked cfg nsh shard t0 progs sch))
+  = map (@Ok action) (reference cfg t0 (map (ev_of tm) (rev (conc_log checked cfg nsh shard t0 progs sch)))).
+Proof. exact conc_linearizable. Qed.
+
+(** A disabled limiter never limits and touches no shared state under any interleaving. *)
+Theorem concurrent_disabled_never_limits :
+  forall (checked : bool) (cfg : config) (nsh : nat) (shard : N -> nat) (t0 : N) (progs : list (list N)) (sch : list (nat * N)),
+  Forall (fun en => snd en = Ok Passed) (conc_log checked (disable cfg) nsh shard t0 progs sch) /\
+  conc_shared checked (disable cfg) nsh shard t0 progs sch = cinit t0.
+Proof. exact conc_disabled. Qed.
+
+(** The small-step model run call by call on one thread is the sequential model of [register]
+    (the one compared with the code call by call). *)
+Theorem concurrent_model_is_sequential_on_one_thread :
+  forall (checked : bool) (cfg : config) (nsh : nat) (shard : N -> nat) (t0 : N) (h : list event),
+  check_every cfg <= usize_max -> (forall k, (shard k < nsh)%nat) ->
+  concseq_decisions checked cfg nsh shard t0 h = decisions checked cfg t0 h.
+Proof. exact concseq_is_sequential. Qed.
+
+(** Non-vacuity: two threads on address 1 and one call of address 2, interleaved access by access. *)
+Definition ex_progs : list (list N) := [[1; 1; 2]; [1; 1]].
+Definition ex_sch : list (nat * N) :=
+  map (fun i => (i, 0)) [0; 1; 1; 0; 0; 1; 1; 0; 0; 1; 1; 1; 1; 1; 1; 0; 0; 0; 0; 0; 0; 0; 0; 0; 0; 0]%nat.
+Example ex_concurrent :
+  fits (length ex_sch) /\ check_every ex_cfg <= 1 /\ reset_after ex_cfg = None /\
+  conc_log true ex_cfg 4 conc_shard 0 ex_progs ex_sch
+  = [(0%nat, 2, Ok Passed); (0%nat, 1, Ok Drop); (1%nat, 1, Ok Send); (1%nat, 1, Ok Send); (0%nat, 1, Ok Passed)] /\
+  all_done (wrun true ex_cfg 4 conc_shard (wstart 0 ex_progs) ex_sch) = true /\
+  count 2 (all_calls ex_progs) <= max_requests ex_cfg.
+Proof. vm_compute. repeat split; discriminate. Qed.
+(** Outside that regime ([check_every] = 2) two concurrent calls can both be sampled, which no
+    sequential history allows (there exactly every second call is): the exact-ladder and
+    linearisability statements need [check_every] <= 1; the bound of [concurrent_others_never_hurt] still holds. *)
+Example ex_sampling_race :
+  let cfg := {| max_requests := 0; check_every := 2; reset_after := None |} in
+  map snd (conc_log true cfg 4 conc_shard 0 [[1]; [1]; [1]]
+             (map (fun i => (i, 0)) [0; 1; 2; 1; 1; 1; 1; 2; 2; 2; 2]%nat))
+  = [Ok Drop; Ok Drop; Ok Passed] /\
+  reference cfg 0 [(1, 0); (1, 0); (1, 0)] = [Passed; Drop; Passed].
+Proof. vm_compute. split; reflexivity. Qed.
